@@ -1,25 +1,34 @@
-(* C15 — failures and kills.  [good_trace] admits a kill of any process at any point and a
-   fault at every failing step except while the build log is written into the already created
-   marker (refuted there: Jit.marker_window_refuted).  JitGen.restore_on_fault is read off
-   jit.py on every run. *)
+(* C15 — failures and kills.  Every trace is covered: a kill of any process at any point and a
+   failure at every step that can fail (code generation, compile, link, writing the build log,
+   publishing the marker).  JitGen.restore_on_fault and JitGen.atomic_marker are read off jit.py on
+   every run; with the marker created empty and then filled (the code before fix 'publish the
+   ready marker atomically') the first statement is false: Jit.marker_window_refuted. *)
 From Coq Require Import List Arith.
 From FFCX Require Import Jit.
 From FFCXGen Require Import JitGen.
 
 Theorem C15_no_partial_load_after_any_kill_or_failure :
   forall timeout es p,
-    good_trace timeout restore_on_fault init es ->
-    In p (s_procs (run timeout restore_on_fault init es)) -> p_pc p <> Done LoadedPartial.
-Proof. intros. eapply no_partial_load; eauto. Qed.
+    In p (s_procs (run timeout restore_on_fault atomic_marker init es)) -> p_pc p <> Done LoadedPartial.
+Proof. intros timeout es p. apply no_partial_load_any_trace. vm_compute. reflexivity. Qed.
 Print Assumptions C15_no_partial_load_after_any_kill_or_failure.
+
+(* a marker left behind by whatever happened always stands for a complete module under a held lock *)
+Theorem C15_marker_never_survives_without_a_complete_module :
+  forall timeout es,
+    f_cached (s_fs (run timeout restore_on_fault atomic_marker init es)) = true ->
+    f_c (s_fs (run timeout restore_on_fault atomic_marker init es)) = true /\
+    f_so (s_fs (run timeout restore_on_fault atomic_marker init es)) = SoComplete.
+Proof. intros timeout es. apply marker_means_complete_any_trace. vm_compute. reflexivity. Qed.
+Print Assumptions C15_marker_never_survives_without_a_complete_module.
 
 Theorem C15_failed_build_releases_the_lock :
   forall timeout f sw,
     f_c f = true ->
-    exists f', step_proc timeout restore_on_fault f {| p_pc := BX; p_swapped := sw |} Normal
+    exists f', step_proc timeout restore_on_fault atomic_marker f {| p_pc := BX; p_swapped := sw |} Normal
                = Some (f', {| p_pc := Done RaisedBuild; p_swapped := sw |}, false) /\
                f_c f' = false /\ f_failed f' = true /\
-               step_proc timeout restore_on_fault f' {| p_pc := R2; p_swapped := false |} Normal
+               step_proc timeout restore_on_fault atomic_marker f' {| p_pc := R2; p_swapped := false |} Normal
                = Some (set_c f' true, {| p_pc := B1; p_swapped := false |}, false).
 Proof. intros. apply fail_releases_lock. assumption. Qed.
 Print Assumptions C15_failed_build_releases_the_lock.
@@ -27,6 +36,6 @@ Print Assumptions C15_failed_build_releases_the_lock.
 (* process-global state: the root logger handlers are swapped only inside the compile; every
    request that returns or raises has them restored (all traces, all faults, all kills) *)
 Theorem C15_handlers_restored :
-  forall timeout es, Forall hok (s_procs (run timeout restore_on_fault init es)).
+  forall timeout es, Forall hok (s_procs (run timeout restore_on_fault atomic_marker init es)).
 Proof. intros. apply handlers_restored. vm_compute. reflexivity. Qed.
 Print Assumptions C15_handlers_restored.
